@@ -28,7 +28,7 @@ from ..world.observers import SpyCallback, SpyState
 from ..world.policy import SimTablePolicy, gen_policy_tables, with_policy_tables
 
 NAME = "collect_on"
-PROPS = {"C03", "C04", "C12", "C16", "C19"}
+PROPS = {"C03", "C04", "C10", "C12", "C16", "C19"}
 
 
 def _spy(base):
@@ -288,6 +288,8 @@ class Runner:
                 check_node_rollout(res, props, mdp, pol, nodes[i], i, recs[i], gamma, lam, alpha, trace=tr)
             if int(state.iteration_count) != it_before + 1:
                 res.fail("C10", "iteration_counter", "not_incremented", got=int(state.iteration_count), expected=it_before + 1)
+            else:
+                res.ok("C10", "iteration_counter")
             if self._want_log:
                 jax.effects_barrier()
                 self._check_iteration_record(res, cb.recorder, recs, oi)
